@@ -811,6 +811,9 @@ func (c *comparer) tree() {
 			c.miss("tree.data", "node %d: recorded input %s, as made %s", i, nd.Data, want)
 		}
 		wantRet := retBytes(m.Ret)
+		if m.Ret == "in" {
+			wantRet = c.dataOf(m)
+		}
 		if m.DInit != "" && m.Err == "" {
 			wantRet = StubRuntime
 		}
